@@ -175,7 +175,7 @@ def gen_xpath_toks(rng, u, fields):
 
 def gen_cases(rng, tier):
     cases = []
-    n_uni = 6 if tier == "quick" else 40
+    n_uni = 12 if tier == "quick" else 40
     per_uni = 70 if tier == "quick" else 500
     for _ in range(n_uni):
         u = gen_universe(rng)
